@@ -81,6 +81,11 @@ pub struct Sc {
     /// Caller program: `nexts` calls of next(), then drain / max / drop.
     pub nexts: usize,
     pub then: Then,
+    /// Caller program extension: after the next() calls and before max(), raise the threshold to
+    /// max(old, this). (Only raising is well defined: every unconsumed position at or above the new
+    /// threshold is then either still buffered or in a block not yet scanned.)
+    #[serde(default)]
+    pub raise_before_max: Option<ThresholdSpec>,
 }
 
 // --- reference model ---------------------------------------------------------------------------
@@ -477,6 +482,11 @@ pub fn gen_world(r: &mut Prng, idx: u64, prop: &str, forced: Option<(usize, usiz
         own_buffer: r.chance(1, 5),
         nexts,
         then,
+        raise_before_max: if then == Then::Max && nexts > 0 && r.chance(1, 4) {
+            Some(*r.pick(&[ThresholdSpec::AtRank(0), ThresholdSpec::AtRank(1), ThresholdSpec::BetweenRanks(0), ThresholdSpec::AboveMax, ThresholdSpec::AtRank(3)]))
+        } else {
+            None
+        },
     }
 }
 
@@ -679,6 +689,7 @@ impl ScanSim {
         let mut seen: BTreeSet<usize> = BTreeSet::new();
         let mut violation: Option<Violation> = None;
         let mut max_result: Option<Option<(usize, f32)>> = None;
+        let mut raised_to: Option<f32> = None;
         let mut exhausted = false;
         let mut calls = 0usize;
         let mut buffered_across_calls = false;
@@ -787,6 +798,15 @@ impl ScanSim {
                     }
                     Then::Max => {
                         o.steps += 1;
+                        if let Some(spec) = sc.raise_before_max {
+                            let t2 = resolve_threshold(spec, &table, &rows);
+                            if t2 > t {
+                                raised_to = Some(t2);
+                                scanner.threshold(t2);
+                                o.probe("threshold-raised-between-next-and-max");
+                                crate::ev!(o.trace, "threshold raised to {:e}", t2);
+                            }
+                        }
                         match sut(|| cpu::with_host(sc.host, || scanner.max())) {
                             Err(p) => violation = Some(ctx.panic_violation(&p, &format!("Scanner::max() after {} next() calls", calls), ovf_tag)),
                             Ok(r) => {
@@ -835,6 +855,10 @@ impl ScanSim {
             if calls > 0 && !seen.is_empty() {
                 o.probe("max-after-partial-consumption");
             }
+            // the threshold that max() had to honour (raised after the next() calls in some programs)
+            let t = raised_to.unwrap_or(t);
+            let band = |i: usize| -> bool { !exact && (table.f64s[i] - t as f64).abs() <= table.tol[i] };
+            let expected: BTreeSet<usize> = (0..n_pos).filter(|&i| table.f32s[i] >= t).collect();
             // U = expected hits not yet returned
             let u: Vec<usize> = expected.iter().copied().filter(|i| !seen.contains(i)).collect();
             let u_strict: Vec<usize> = u.iter().copied().filter(|&i| !band(i)).collect();
@@ -1021,9 +1045,15 @@ impl Sim for ScanSim {
             s.spare_width = 0;
             out.push(s);
         }
+        if sc.raise_before_max.is_some() {
+            let mut s = sc.clone();
+            s.raise_before_max = None;
+            out.push(s);
+        }
         if sc.nexts > 0 {
             let mut s = sc.clone();
             s.nexts = 0;
+            s.raise_before_max = None;
             out.push(s);
             let mut s = sc.clone();
             s.nexts = sc.nexts / 2;
